@@ -16,6 +16,11 @@ S3 ties (harness/c08_rangecoder.c vs. OpusModel.RangeCoder through Driver.SuiteR
                        by the real silk_decode_indices + silk_decode_pulses; model: OpusModel.SilkSymsEnc (encoder side, C08)
                        against OpusModel.SilkSyms (C03's decoder model): coder state after the frame and after ec_enc_done,
                        buffer, every decoded index and pulse, final decoder state
+  rangecoder-silkpacket harness/c08_silkpacket.c: the REAL silk_Encode on synthetic audio (mono/stereo, NB/MB/WB, 10-60 ms payloads,
+                       LBRR on); link-time wrappers record what it decided to write (indices, pulses, predictors, mid-only flags,
+                       patched flag word) in semantic form; model: OpusModel.SilkSymsEnc.packetOps (the order of enc_API.c) must
+                       reproduce the exact bytes and final coder state; plus, model-free, the real silk_Decode run on those bytes
+                       must read back exactly the recorded frames and end with the encoder's rng / ec_tell
 S4 search: the property predicates evaluated on the implementation alone (harness modes `search` / `prop`):
   P1 round trip when the encoder reports no error, P2 tell/tell_frac bounds, monotonicity, range invariant and
   encoder/decoder agreement, P3 guard bytes and bytes beyond the current storage untouched, P4 tell <= 8*storage
@@ -31,12 +36,13 @@ SOURCES = ['celt/entenc.c', 'celt/entdec.c', 'celt/entcode.c', 'celt/entcode.h',
            'silk/enc_API.c', 'silk/dec_API.c', 'silk/encode_indices.c', 'silk/encode_pulses.c', 'silk/shell_coder.c',
            'silk/code_signs.c', 'silk/stereo_encode_pred.c', 'silk/NLSF_unpack.c', 'silk/decode_indices.c', 'silk/decode_pulses.c',
            'silk/tables_pulses_per_block.c', 'silk/tables_other.c', 'silk/tables_gain.c', 'silk/tables_pitch_lag.c', 'silk/tables_LTP.c',
-           'silk/tables_NLSF_CB_NB_MB.c', 'silk/tables_NLSF_CB_WB.c', 'silk/control_codec.c', 'silk/decoder_set_fs.c', 'silk/define.h']
+           'silk/tables_NLSF_CB_NB_MB.c', 'silk/tables_NLSF_CB_WB.c', 'silk/control_codec.c', 'silk/decoder_set_fs.c', 'silk/define.h',
+           'silk/stereo_decode_pred.c', 'silk/decode_frame.c', 'silk/float/encode_frame_FLP.c', 'silk/fixed/encode_frame_FIX.c', 'silk/stereo_LR_to_MS.c']
 REQUIRED_THEOREMS = ['OpusProps.C08.rng_normalised', 'OpusProps.C08.tell_frac_bounds', 'OpusProps.C08.tell_frac_formula',
                      'OpusProps.C08.tell_monotone', 'OpusProps.C08.decode_encode', 'OpusProps.C08.lockstep_rng',
                      'OpusProps.C08.decode_encode_patched', 'OpusProps.C08.done_within_budget',
                      'OpusProps.C08.outside_untouched', 'OpusProps.C08.lockstep_symbols', 'OpusProps.C08.silk_flags_roundtrip', 'OpusProps.C08.laplace_pvq_roundtrip',
-                     'OpusProps.C08.tell_contracts', 'OpusProps.C08.bytes_below_tell', 'OpusProps.C08.silk_syms_roundtrip_frame']
+                     'OpusProps.C08.tell_contracts', 'OpusProps.C08.bytes_below_tell', 'OpusProps.C08.silk_syms_roundtrip_frame', 'OpusProps.C08.silk_syms_roundtrip']
 UNPROVED = []
 RULE = ('op sequences of length 1..4000 over all nine operation kinds (ec_encode, ec_encode_bin, ec_enc_bit_logp, ec_enc_icdf, '
         'ec_enc_icdf16, ec_enc_uint, ec_enc_bits, ec_enc_patch_initial_bits, ec_enc_shrink) drawn from the seed by a '
@@ -59,7 +65,13 @@ NOT_COVERED = [
     'composition with C17 (laplace_pvq_roundtrip): proved for the calls ec_laplace_encode/decode and encode_pulses/decode_pulses; '
     'the surrounding CELT band loops (quant_coarse_energy, quant_band) are not modelled; the correspondence run rangecoder-codes '
     'uses N <= 22, K <= 5 and Laplace pairs on the 128/64 grid, the theorem covers every reachable (N,K) and every LaplaceOk pair',
-    'ec_laplace / cwrs / SILK symbol layers built on top of the coder (C09, C10, ...)',
+    'composition with C03 (silk_syms_roundtrip): proved for normal decoding (lostFlag = 0: the LBRR data is read and dropped); the FEC '
+    'path of silk_Decode (lostFlag = 2, which reads only the LBRR frames and stops in the middle of the payload) has no round-trip '
+    'theorem; the rate-control loop of silk_encode_frame (re-coding a frame from a saved coder state) is outside the model — the '
+    'model describes the operations that end up in the stream, and rangecoder-silkpacket skips (and counts) packets in which a frame '
+    'was coded more than once; DTX / zero-length payloads and the redundancy / hybrid hand-over behind the SILK data are not modelled '
+    'on the encoder side; pulses of value -128 (opus_int8 minimum, which (opus_int8)silk_abs mangles) are outside PulsesOk',
+    'the CELT symbol layer built on top of the coder (C03 stage 2, C17)',
     'the non-table `#else` variant of ec_tell_frac and USE_SMALL_DIV_TABLE (not compiled on this target)',
     'streams longer than 4000 operations and buffers larger than 1275 bytes (the Lean theorems are not length-bounded; '
     'the correspondence run is)',
@@ -88,6 +100,10 @@ QUICK_SEQ, THOROUGH_SEQ = 20000, 300000
 QUICK_SEARCH, THOROUGH_SEARCH = 60000, 1000000
 QUICK_CODES, THOROUGH_CODES = 6000, 120000
 QUICK_SFRAME, THOROUGH_SFRAME = 3000, 60000
+QUICK_SPACKET, THOROUGH_SPACKET = 300, 5000     # streams of 3..14 packets
+SPACKET_WRAP = ['-Wl,' + ','.join('--wrap=' + f for f in ('silk_encode_indices', 'silk_encode_pulses', 'silk_stereo_encode_pred',
+                                                            'silk_stereo_encode_mid_only', 'ec_enc_patch_initial_bits',
+                                                            'silk_decode_indices', 'silk_decode_pulses'))]
 PENDING_FF = 'carry-pending 0xFF'
 
 
@@ -136,6 +152,9 @@ def ties(ctx):
     hs = ctx.harness('c08_silksyms', ['c08_silksyms.c'], variant='san')
     out.append(_tidy(common.run_tie('rangecoder-silkframe', [hs, 'rand', str(ctx.seed), str(QUICK_SFRAME if ctx.quick else THOROUGH_SFRAME)]),
                      'rangecoder:sframe:line'))
+    hp = ctx.harness('c08_silkpacket', ['c08_silkpacket.c'], variant='san', extra=SPACKET_WRAP)
+    out.append(_tidy(common.run_tie('rangecoder-silkpacket', [hp, 'rand', str(ctx.seed), str(QUICK_SPACKET if ctx.quick else THOROUGH_SPACKET)]),
+                     'rangecoder:spacket:line'))
     return out
 
 
@@ -227,8 +246,45 @@ def _codes_witness(tie, mm):
     return None
 
 
+def _silk_witness(tie, mm):
+    """Round-trip predicates on the implementation's own answers for the SILK symbol-layer ties."""
+    inp, impl = mm.get('input', ''), mm.get('impl', '')
+    if impl in ('SANITIZER', 'ABORT', 'SIGSEGV'):
+        return {'suite': tie.name, 'input': _short(inp, 3000), 'expected': 'inputs in the encoder\'s domain are coded and decoded to completion',
+                'observed': impl, 'why': 'sanitizer report / celt_assert in the SILK symbol layer on legal indices / pulses: '
+                + ' | '.join(mm.get('sanitizer_report', [])[:6])}
+    if tie.name == 'rangecoder-silkpacket':
+        m = re.search(r' R (diff\S*)(.*)$', impl)
+        if m:
+            return {'suite': tie.name, 'input': _short(inp, 3000), 'expected': 'the real silk_Decode reads back, frame by frame, the indices and pulses '
+                    'the real silk_Encode wrote, and ends with its rng / ec_tell', 'observed': _short(m.group(1) + m.group(2), 1500),
+                    'why': 'real encoder and real decoder disagree on a SILK payload (no model involved): diff@<k> = first differing frame in '
+                           'call order, 1000+c = silk_Decode call c failed, 2000+n = n frames read instead of the number written, 3000 = final range / tell'}
+        return None
+    f = inp.split(' ')
+    a = re.match(r'ok E \S+ D \S+ B \S+ X (\S+) P (\S+) Y \S+', impl)
+    if len(f) != 12 or not a:
+        if impl.startswith('ok E') and ' Y ' not in impl:
+            return {'suite': tie.name, 'input': _short(inp, 3000), 'expected': 'the decoder side runs to completion on a stream ec_enc_done finished without error',
+                    'observed': 'answer ends at: ...' + impl[-120:], 'why': 'the real silk_decode_indices / silk_decode_pulses stopped on legal input'}
+        return None
+    ix, pulses = f[10], [int(x) for x in f[11].split(',')]
+    dec = [int(x) for x in a.group(2).split(',')]
+    if a.group(1) != ix:
+        return {'suite': tie.name, 'input': _short(inp, 3000), 'expected': 'silk_decode_indices returns the indices silk_encode_indices wrote: ' + ix,
+                'observed': a.group(1), 'why': 'ec_enc_done reported no error but the real decoder returned different side-information indices'}
+    if dec[:len(pulses)] != pulses or any(dec[len(pulses):]):
+        k = next((i for i, (x, y) in enumerate(zip(dec, pulses + [0] * len(dec))) if x != y), -1)
+        return {'suite': tie.name, 'input': _short(inp, 3000), 'expected': 'silk_decode_pulses returns the pulses silk_encode_pulses wrote',
+                'observed': 'first difference at sample %d: decoded %s, encoded %s' % (k, dec[k] if 0 <= k < len(dec) else '?', (pulses + [0] * len(dec))[k] if k >= 0 else '?'),
+                'why': 'ec_enc_done reported no error but the real decoder returned different excitation pulses'}
+    return None
+
+
 def classify(ctx, tie, mm):
     inp = mm.get('input', '')
+    if tie.name in ('rangecoder-silkframe', 'rangecoder-silkpacket'):
+        return _silk_witness(tie, mm)
     if tie.name == 'rangecoder-tellfrac':
         return _tf_witness(tie, mm)
     if tie.name == 'rangecoder-codes':
@@ -336,7 +392,24 @@ def replay(ctx, obj):
             print('  property predicates on the implementation: ' + _short(verdict, 1200))
             if not verdict.startswith('P OK'):
                 rc = 1
-        hp = subprocess.run([h, 'stdin'], input=inp + '\n', stdout=subprocess.PIPE, stderr=subprocess.PIPE, text=True, env=_env())
+        op = inp.split(' ')[1] if ' ' in inp else ''
+        if op == 'spacket':
+            print('  a `spacket` record is what the real silk_Encode decided to write for generated audio; it cannot be fed back into the '
+                  'encoder. Re-run: python3 tools/check.py C08 --tier %s (VERIF_SEED=%s)' % (obj.get('tier', 'quick'), obj.get('seed', 1)))
+            rc = 1
+            continue
+        hx = (ctx.harness('c08_silksyms', ['c08_silksyms.c'], variant='san') if op == 'sframe' else
+              ctx.harness('c08_codes', ['c08_codes.c'], variant='san') if op == 'cseq' else h)
+        hp = subprocess.run([hx, 'stdin'], input=inp + '\n', stdout=subprocess.PIPE, stderr=subprocess.PIPE, text=True, env=_env())
+        if op == 'sframe':
+            w = None
+            for l in hp.stdout.split('\n'):
+                if l.startswith('O '):
+                    class _T: name = 'rangecoder-silkframe'
+                    w = _silk_witness(_T, {'input': inp, 'impl': l[2:]})
+            print('  round trip on the implementation (real encoder -> real decoder): ' + ('DIFFERS: %s / %s' % (w['expected'][:160], w['observed'][:160]) if w else 'ok'))
+            if w:
+                rc = 1
         dp = subprocess.run([common.driver_path(), 'check'], input=hp.stdout, stdout=subprocess.PIPE, text=True)
         m = re.search(r'SUMMARY cases=(\d+) mismatches=(\d+)', dp.stdout)
         if not m or int(m.group(1)) == 0:
